@@ -725,6 +725,11 @@ def _merge_blocks(dg, graph):
             succ in to_ignore):
             continue
 
+        # The son must be the only destination of its parent: a destination
+        # which is not (yet) in the graph is still a destination
+        if any(cons.loc_key != lbl_succ for cons in block.bto):
+            continue
+
         # Remove block last instruction if needed
         last_instr = block.lines[-1]
         if last_instr.delayslot > 0:
@@ -740,6 +745,11 @@ def _merge_blocks(dg, graph):
         block.lines += succ.lines
         for nextb in graph.successors_iter(lbl_succ):
             graph.add_edge(lbl_block, nextb, graph.edges2constraint[(lbl_succ, nextb)])
+        # The destinations of the son which are not in the graph become
+        # destinations of the merged block
+        for cons in succ.bto:
+            if graph.loc_key_to_block(cons.loc_key) is None:
+                block.bto.add(cons)
 
         graph.del_block(succ)
         to_ignore.add(lbl_succ)
